@@ -37,7 +37,7 @@ func c07Specs(tier string, seed int) []c07Spec {
 	i := 0
 	// A: bare soil, tillage depth x type x fertiliser
 	for _, so := range []string{"loam12", "three", "sand20", "two", "peat12"} {
-		for _, cm := range []int{0, 5, 10, 25, 30, 40, 50, 100} {
+		for _, cm := range []int{0, 5, 10, 15, 25, 28, 30, 40, 50, 100} {
 			for _, typ := range []int{0, 1} {
 				if (cm == 0 && typ == 1) || cm > 10*soilN(so) {
 					continue // tillage deeper than the profile is not a valid input
@@ -82,9 +82,9 @@ func init() {
 		Assumptions: []string{"scheduled fertilisation", "exact pool+counter equality is required only on days without crop litter input (bare soil); with a crop the pools may only gain"},
 		Bound: func(t string) string {
 			if t == "quick" {
-				return "D=3 over 5 symbols; 8 tillage depths x 2 types x 3 rotating fertiliser types x 5 soils; 4 crops x 3 N levels x 2 gw x 2 ages x 4 soils"
+				return "D=3 over 5 symbols; 10 tillage depths x 2 types x 3 rotating fertiliser types x 5 soils; 4 crops x 3 N levels x 2 gw x 2 ages x 4 soils"
 			}
-			return "D=4 over 5 symbols; 8 tillage depths x 2 types x all 29 fertiliser types x 5 soils; crop grid as quick"
+			return "D=4 over 5 symbols; 10 tillage depths x 2 types x all 29 fertiliser types x 5 soils; crop grid as quick"
 		},
 		Budget: func(t string) time.Duration {
 			if t == "quick" {
